@@ -21,7 +21,7 @@ def run(tier):
     dw = os.path.join(bdir, "bin", "dwgrep")
     drv = os.path.join(bdir, "bin", "zwdrv")
     # 1. the escape table and the literal syntax are inverse; integer shapes (tla/Render.tla)
-    r = tlc.run_tlc("MCRender", constants={"Fixed": True, "MaxLen": 3, "Alphabet": ALPHABET}, workers=1, timeout=900)
+    r = tlc.run_tlc("MCRender", constants={"Fixed": True, "MaxLen": 3, "Alphabet": ALPHABET, "NoSaver": []}, workers=1, timeout=900)
     if not r.ok:
         if "ssumption" in r.out:
             vd.observe("model:render", {"output": r.out[-3000:]})
@@ -121,6 +121,39 @@ def run(tier):
             else:
                 key = "integer %d in %s prints `%s' (%s)" % (v, d, t, kind)
             vd.observe(key, {"value": v, "domain": d, "printed": t, "reread": r})
+    # 3b. sequences: one stream renders all elements (tla/Render.tla (c)); each element must look as it looks alone
+    els = [(v, d) for v in (8, 16, 255, -255) for d in ("dec", "hex", "oct", "bin")]
+    one = lambda e: "%d %s" % e
+    scmds, smeta = [], []
+    for e in els:
+        scmds.append("\t".join(["run", str(len(scmds)), "max=5", zw.hexq('%s "%%s"' % one(e))])); smeta.append(("alone", (e,)))
+    combos = list(itertools.product(els, repeat=2)) + rng.sample(list(itertools.product(els, repeat=3)), 300)
+    for c in combos:
+        scmds.append("\t".join(["run", str(len(scmds)), "max=5", zw.hexq('[%s] "%%s"' % ", ".join(one(e) for e in c))])); smeta.append(("seq", c))
+        if len(c) == 2:
+            scmds.append("\t".join(["run", str(len(scmds)), "max=5", zw.hexq('[[%s], %s] "%%s"' % (one(c[0]), one(c[1])))])); smeta.append(("nested", c))
+            scmds.append("\t".join(["run", str(len(scmds)), "max=5", zw.hexq('%s %s "%%s %%s"' % (one(c[0]), one(c[1])))])); smeta.append(("two", c))
+    sres = zw.run_driver(drv, scmds, wd, tag="seqs")
+    sbyid = {r.get("id"): r for r in sres}
+    alone = {}
+    def text(i):
+        r = sbyid.get(str(i))
+        if not r or r.get("status") != "ok" or not r["results"]:
+            return None
+        return binascii.unhexlify(r["results"][0][-1]["hex"]).decode()
+    for i, (kind, c) in enumerate(smeta):
+        vd.cov["evaluations"] += 1
+        t = text(i)
+        if kind == "alone":
+            alone[c[0]] = t
+            continue
+        if any(alone.get(e) is None for e in c):
+            continue
+        a = [alone[e] for e in c]
+        want = {"seq": "[" + ", ".join(a) + "]", "nested": "[[%s], %s]" % (a[0], a[-1]), "two": " ".join(a)}[kind]
+        if t != want:
+            vd.observe("sequence rendering is not the composition of its elements' renderings: %s of %s" % (kind, " ; ".join(one(e) for e in c)),
+                       {"expected": want, "observed": t})
     # 4. named constants: value vs the headers, rendering read back as a word, short aliases
     wr = zw.run_driver(drv, ["words\tw\t-\t00"], wd, tag="words")
     words = wr[0]["words"]
@@ -187,6 +220,7 @@ def run(tier):
                      "{NUL, 0x01, TAB, quote, %%, 0, 1, backslash, a, n, x, 0x80}; on the implementation the same strings plus all "
                      "single bytes, byte+digit pairs and random strings are printed nested by the CLI and read back by the library; "
                      "boundary/random integers in dec/hex/oct/bin via %%s and %%d %%x %%o %%b read back with equal value and domain; "
+                     "sequences (pairs, nested, sampled triples) of constants of mixed domains render as the composition of their elements' own renderings (one shared stream: Render.tla (c)); "
                      "all %d named constants of the vocabulary: value vs /usr/include/dwarf.h and elf.h, rendering read back as a "
                      "word, short aliases; non-trivial = strings containing bytes that need escaping" % len(names))
 
